@@ -377,7 +377,7 @@ class PointCloud(Shape):
         vector : ``(n_points,)`` `ndarray`
             The vector from which to create the points' array.
         """
-        self.points = vector.reshape([-1, self.n_dims])
+        self.points = vector.reshape(self.points.shape)
 
     def __str__(self):
         return "{}: n_points: {}, n_dims: {}".format(
